@@ -144,7 +144,13 @@ func AsmChild() {
 	// header facts for every dot block that follows a DATA line
 	var hs []string
 	seen := map[string]bool{}
-	low := bytes.ToLower(stream)
+	low := make([]byte, len(stream)) // ASCII lower-casing only: offsets into low must be offsets into stream (bytes.ToLower shortens U+212A)
+	for x, c := range stream {
+		if 'A' <= c && c <= 'Z' {
+			c += 'a' - 'A'
+		}
+		low[x] = c
+	}
 	for i := 0; i < len(low); {
 		j := bytes.Index(low[i:], []byte("data"))
 		if j < 0 {
